@@ -323,6 +323,20 @@ pub fn five_pairs() -> Addrs {
     Addrs::List(vec![(0x23, 0x34), (0, 0), (0x7F, 0x7F), (0x55, 0x2A), (1, 0x7E)])
 }
 
+/// Thorough tier: every 7-bit source with a fixed destination and every 7-bit
+/// destination with a fixed source (256 pairs) instead of a handful of pairs.
+pub fn addr_lanes() -> Addrs {
+    Addrs::List((0..128u8).map(|a| (a, 0x34)).chain((0..128u8).map(|a| (0x23, a))).collect())
+}
+
+fn pairs_or_lanes(run: &Run, quick: Addrs) -> Addrs {
+    if run.tier.thorough() {
+        addr_lanes()
+    } else {
+        quick
+    }
+}
+
 fn probe_spec() -> CtxSpec {
     dirty_spec(0x0F)
 }
@@ -433,7 +447,7 @@ fn sized_space(max_data: usize) -> (u64, impl Fn(u64) -> EncCall + Sync) {
 fn all_spaces(tier: crate::engine::Tier) -> Vec<CallSpace> {
     let mut v = request_spaces(tier);
     v.extend(response_spaces(tier));
-    v.extend(vendor_spaces(tier));
+    v.extend(vendor_spaces(tier, false));
     v
 }
 
@@ -449,7 +463,8 @@ pub fn run_c03(run: &mut Run) {
     let basic = basic_calls();
     sweep_enc(run, "C03", "30 kinds x 2 tuples x 128x128 x 4 ctxs", basic.len() as u64, &|i| basic[i as usize].clone(), &Addrs::All7, 4);
     let sp = all_spaces(run.tier);
-    spaces_sweep(run, "C03", &sp, &five_pairs(), 1);
+    let a = pairs_or_lanes(run, five_pairs());
+    spaces_sweep(run, "C03", &sp, &a, 1);
     let (n, f) = sized_space(255);
     sweep_enc(run, "C03", "writers x every data length x walking contents", n, &f, &Addrs::List(vec![(0x23, 0x34), (0x7F, 0x01)]), 2);
     c03_responses(run);
@@ -536,7 +551,8 @@ pub fn run_c04(run: &mut Run) {
     let basic = basic_calls();
     sweep_enc(run, "C04", "30 kinds x 2 tuples x 128x128 x 4 ctxs", basic.len() as u64, &|i| basic[i as usize].clone(), &Addrs::All7, 4);
     let sp = all_spaces(run.tier);
-    spaces_sweep(run, "C04", &sp, &Addrs::List(vec![(0x23, 0x34), (0x7F, 0x7F)]), 1);
+    let a = pairs_or_lanes(run, Addrs::List(vec![(0x23, 0x34), (0x7F, 0x7F)]));
+    spaces_sweep(run, "C04", &sp, &a, 1);
     // every size, but only backgrounds + a thinned walking byte (content does not matter to framing)
     let (n, f) = sized_space(300);
     sweep_enc(run, "C04", "writers x every data length 0..=300 x contents", n, &f, &Addrs::List(vec![(0x55, 0x2A)]), 1);
@@ -549,14 +565,20 @@ pub fn run_c05(run: &mut Run) {
     let basic = basic_calls();
     sweep_enc(run, "C05", "30 kinds x 2 tuples x 256x256 x 4 ctxs", basic.len() as u64, &|i| basic[i as usize].clone(), &Addrs::All8, 4);
     let sp = all_spaces(run.tier);
-    spaces_sweep(run, "C05", &sp, &Addrs::List(vec![(0x23, 0x34), (0xFF, 0x80), (0x00, 0xFF)]), 1);
+    let a = if run.tier.thorough() {
+        Addrs::List((0..=255u8).map(|a| (a, 0x34)).chain((0..=255u8).map(|a| (0x23, a))).collect())
+    } else {
+        Addrs::List(vec![(0x23, 0x34), (0xFF, 0x80), (0x00, 0xFF)])
+    };
+    spaces_sweep(run, "C05", &sp, &a, 1);
 }
 
 pub fn run_c06(run: &mut Run) {
     run.rule = "17 request encoders; every enum variant x all 256 values of each byte parameter fully crossed (Set EID 4x256, Allocate 3x256x256, Query Hop 256x6), UUID byte lanes x 4 backgrounds x handles, 0..=7 routing entries with every byte lane (both constructors); at 2 address pairs and on 4 contexts for the basic tuples; oracle: message bytes 8..len-1 equal the DSP0236 layout; non-trivial = calls that produced a packet".into();
     run.assume("K-C06-QUERYHOP is attributed only when byte 10 is 0x0E and every other byte (PEC included) is as specified");
     let sp = request_spaces(run.tier);
-    spaces_sweep(run, "C06", &sp, &Addrs::List(vec![(0x23, 0x34), (0x7F, 0x00)]), 1);
+    let a = pairs_or_lanes(run, Addrs::List(vec![(0x23, 0x34), (0x7F, 0x00)]));
+    spaces_sweep(run, "C06", &sp, &a, 1);
     let basic: Vec<EncCall> = basic_calls().into_iter().filter(|c| c.is_request()).collect();
     sweep_enc(run, "C06", "request tuples x 5 pairs x 4 ctxs", basic.len() as u64, &|i| basic[i as usize].clone(), &five_pairs(), 4);
 }
@@ -565,7 +587,8 @@ pub fn run_c06(run: &mut Run) {
 pub fn run_c07(run: &mut Run) {
     run.rule = "6 response encoders x 6 completion codes x every status/type enum combination x all 256 EIDs stored through the response half's accessor, through the request half's accessor (must not show) and through a processed Set Endpoint ID; UUID lanes; message-type lists of every length 0..=30 x lanes; vendor fields of every length 0..=7 x lanes x selectors; oracle: bytes 8..len-1 (Success) / header + code (other codes); non-trivial = calls that produced a packet".into();
     let sp = response_spaces(run.tier);
-    spaces_sweep(run, "C07", &sp, &Addrs::List(vec![(0x23, 0x34), (0x00, 0x7F)]), 4);
+    let a = pairs_or_lanes(run, Addrs::List(vec![(0x23, 0x34), (0x00, 0x7F)]));
+    spaces_sweep(run, "C07", &sp, &a, 4);
     // stored EID dimension: 256 EIDs x 3 ways of storing x all Set/Get EID enum combinations at Success + one other code
     let probe_s = probe_spec();
     let combos: Vec<EncCall> = {
@@ -621,7 +644,7 @@ pub fn run_c07(run: &mut Run) {
 
 pub fn run_c08(run: &mut Run) {
     run.rule = "vendor_defined: all 256 format bytes (2..=255 refused, buffer untouched), all 65 536 PCI ids x 3 upper halves, IANA byte lanes x 4 backgrounds + every value of each 16-bit half (thorough: all 2^32), all 65 536 numeric values, message bodies of every length 0..=250 x walking contents; raw PCI/IANA/SPDM/secured writers: header None/0..=8 bytes x data length 0..=252 x 3 contents x both halves; oracle: bytes 8..len-1 == type byte, id big-endian, message verbatim; non-trivial = calls that produced a packet".into();
-    let sp = vendor_spaces(run.tier);
+    let sp = vendor_spaces(run.tier, run.tier.thorough());
     spaces_sweep(run, "C08", &sp, &Addrs::List(vec![(0x23, 0x34)]), 1);
     let basic: Vec<EncCall> = basic_calls().into_iter().filter(|c| !c.is_request() && !c.is_response()).collect();
     sweep_enc(run, "C08", "vendor/raw tuples x 5 pairs x 4 ctxs", basic.len() as u64, &|i| basic[i as usize].clone(), &five_pairs(), 4);
@@ -631,7 +654,8 @@ pub fn run_c16(run: &mut Run) {
     run.rule = "every call of the C06/C07/C08 argument spaces on three buffers (exact length poison 0xAA; length+spare in {1,2,3,8,64} poison 0x55; 1024 bytes poison i*73+5): Ok(n) equal across buffers, bytes [0,n) identical across buffers, nothing beyond n modified; refusal axes (EID 0x00/0xFF x 4 operations, 8..=12 routing entries, 31..=40 message types, formats 2..=255, bodies beyond the frame) return Err with the buffer untouched; everything else succeeds without panicking; non-trivial = calls that produced a packet".into();
     run.assume("bytes are compared across buffers, not with the reference (byte values are C06-C08's claim)");
     let sp = all_spaces(run.tier);
-    spaces_sweep(run, "C16", &sp, &Addrs::List(vec![(0x23, 0x34), (0x7F, 0x7F)]), 1);
+    let a = pairs_or_lanes(run, Addrs::List(vec![(0x23, 0x34), (0x7F, 0x7F)]));
+    spaces_sweep(run, "C16", &sp, &a, 1);
     let basic = basic_calls();
     sweep_enc(run, "C16", "30 kinds x 2 tuples x 5 pairs x 4 ctxs", basic.len() as u64, &|i| basic[i as usize].clone(), &five_pairs(), 4);
     let (n, f) = sized_space(300);
